@@ -189,3 +189,99 @@ Definition linear_interpolation (ln : A -> A) (logarithmic mask_edges bypass_che
                                      (column phi dim e) (column theta dim e)
                                      (column target target_dim e)) (zero o) |}.
 End Transform.
+
+(* ---- Grid.transform: target parsing, naming, dispatch (transform.py 269-502) ---- *)
+From XV Require Import Model.Axis.
+
+Section GridTransform.
+  Context {A : Type} (o : Ops A) (isnan : A -> bool) (nanv : A) (ln : A -> A) (half : A -> A).
+
+  Inductive target_arg : Type :=
+  | TBare (vals : list A)                 (* a numpy array *)
+  | TArr (t : tensor A).                  (* a DataArray *)
+
+  Record tcall : Type := {
+    tc_periodic : bool;                         (* axis.boundary == "periodic" *)
+    tc_coords : list (pos * string);            (* axis.coords *)
+    tc_da : tensor A; tc_da_name : option string;
+    tc_target : target_arg; tc_target_dim : option string;
+    tc_target_data : option (tensor A * option string);
+    tc_ds_coord : string -> tensor A;           (* grid._ds[dim] *)
+    tc_method : string; tc_mask_edges : bool; tc_bypass : bool; tc_suffix : string
+  }.
+
+  Record tresult : Type := {
+    tr_tensor : tensor A; tr_name : option string; tr_newdim : string; tr_coord : option (list A)
+  }.
+
+  Definition axis_dims (c : tcall) : list string := map snd (tc_coords c).
+  Definition other_dims (c : tcall) (t : tensor A) : list string :=
+    filter (fun d => negb (memS d (axis_dims c))) (dnames (dims t)).
+
+  (* _parse_target *)
+  Definition parse_target (c : tcall) (target_data_dim : string)
+    : res (tensor A * string * tensor A * option (list A)) :=
+    let td := match tc_target_data c with
+              | Some (t, n) => (t, n)
+              | None => (tc_ds_coord c target_data_dim, Some target_data_dim)
+              end in
+    do tdim <- match tc_target_dim c with
+               | Some d => Ok d
+               | None => match tc_target c with
+                         | TArr t => match dims t with
+                                     | [(d, _)] => Ok d
+                                     | _ => Err ValueError       (* N-d target needs target_dim *)
+                                     end
+                         | TBare _ => Ok (match snd td with Some n => n
+                                                          | None => "TRANSFORMED_DIMENSION"%string end)
+                         end
+               end;
+    let '(target, coord) := match tc_target c with
+                            | TArr t => (t, None)
+                            | TBare v => (of_list (zero o) [(tdim, List.length v)] v, Some v)
+                            end in
+    (* _check_other_dims *)
+    if negb (forallb (fun d => memS d (other_dims c (tc_da c))) (other_dims c (fst td)))
+    then Err ValueError
+    else Ok (target, tdim, fst td, coord).
+
+  Definition out_name (c : tcall) : option string :=
+    match tc_da_name c with
+    | Some n => if String.eqb n "" then None else Some (n ++ tc_suffix c)%string
+    | None => None
+    end.
+
+  Definition grid_transform (c : tcall) : res tresult :=
+    if tc_periodic c then Err ValueError else
+    let cands := filter (fun d => memS d (axis_dims c)) (dnames (dims (tc_da c))) in
+    match cands with
+    | [dim] =>
+      if String.eqb (tc_method c) "linear" || String.eqb (tc_method c) "log" then
+        do p <- parse_target c dim;
+        let '(target, tdim, tdata, coord) := p in
+        Ok {| tr_tensor := linear_interpolation o isnan nanv ln (String.eqb (tc_method c) "log")
+                                                (tc_mask_edges c) (tc_bypass c)
+                                                (tc_da c) tdata target dim tdim;
+              tr_name := out_name c; tr_newdim := tdim; tr_coord := coord |}
+      else if String.eqb (tc_method c) "conservative" then
+        match lookupP Outer (tc_coords c) with
+        | None => Err RuntimeError
+        | Some odim =>
+          do p <- parse_target c odim;
+          let '(target, tdim, tdata, coord) := p in
+          (* target_data on the cell centres is first interpolated to the bounds with
+             nearest-value extension (grid.interp(..., boundary="extend")) *)
+          let tdata' :=
+              if dhas odim (dims tdata) then tdata
+              else map_dim (zero o) dim odim (size dim tdata + 1)
+                           (fun x => window2 (fun a b => half (add o a b)) (pad1 Extend (zero o) 1 1 x))
+                           tdata in
+          let bins := column target tdim env0 in
+          do r <- conservative_interpolation o isnan (tc_da c) tdata' bins dim odim tdim;
+          Ok {| tr_tensor := r; tr_name := out_name c; tr_newdim := tdim;
+                tr_coord := Some (window2 (fun a b => half (add o a b)) bins) |}
+        end
+      else Err OtherError
+    | _ => Err KeyError
+    end.
+End GridTransform.
